@@ -166,6 +166,10 @@ func (r *renderer) split(n, max int) []int {
 		parts = append(parts, max)
 		n -= max
 	}
+	if n > 0 && len(parts) == 0 && r.pick(5) == 4 {
+		// everything in a non-final chunk, then an EMPTY final chunk (in whatever length form is drawn for it)
+		return []int{n, 0}
+	}
 	return append(parts, n)
 }
 
